@@ -18,9 +18,12 @@ FCC = {"Al": 4.05, "Ni": 3.52, "Cu": 3.61, "Rh": 3.80, "Pd": 3.89, "Ag": 4.09, "
 BCC = {"Fe": 2.87, "Cr": 2.88, "V": 3.03, "Nb": 3.30, "Mo": 3.15, "Ta": 3.30, "W": 3.16, "Ba": 5.02, "K": 5.23, "Na": 4.23, "Li": 3.49}
 
 
-def gen(rng):
+def gen(rng, k=None):
     from ase.build import fcc100, fcc111, bcc100, bcc110
-    fam = int(rng.integers(0, 4))
+    # stratified over (facet, stacking): the samples of a run cycle through the four facets and, for each, through
+    # vacuum-separated stacks (periodic or not along z) and vacuum-free periodic stacks (superlattice A|B|A|B…)
+    fam = int(rng.integers(0, 4)) if k is None else k % 4
+    stacking = int(rng.integers(0, 3)) if k is None else (k // 4) % 3
     table, builder, facet = [(FCC, fcc100, "fcc100"), (FCC, fcc111, "fcc111"), (BCC, bcc100, "bcc100"), (BCC, bcc110, "bcc110")][fam]
     names = list(table)
     A = rng.choice(names)
@@ -36,15 +39,20 @@ def gen(rng):
     while n * table[A] * 0.6 < 2 * F.MAX_CELL + 0.5 and n < 9:   # small lattice constants need more repeats for the lateral height
         n += 1
     l1, l2 = int(rng.integers(3, 6)), int(rng.integers(3, 6))
-    s = builder(str(A), (n, n, l1 + l2), a=table[A], vacuum=8.0)
+    if k is not None and (k // 12) % 2 == 0:     # stratum index: facet (4) x stacking (3) x thin/any (2)
+        l1, l2 = [(3, 3), (3, 4), (4, 3)][int(rng.integers(0, 3))]        # thin slabs: each sees its own image through the other
+    if stacking == 2:
+        s = builder(str(A), (n, n, l1 + l2), a=table[A], periodic=True)   # no vacuum: the stack repeats along z
+    else:
+        s = builder(str(A), (n, n, l1 + l2), a=table[A], vacuum=8.0)
     z = s.get_positions()[:, 2]
     levels = np.unique(np.round(z, 3))
     top = np.isin(np.round(z, 3), levels[l1:])
     sym = [str(B) if t else str(A) for t in top]
     s.set_chemical_symbols(sym)
-    pz = bool(rng.integers(0, 2))
+    pz = True if stacking == 2 else bool(stacking)
     s.set_pbc([True, True, pz])
-    desc.update({"repeat": n, "layers": [l1, l2], "pbc_z": pz, "natoms": len(s)})
+    desc.update({"repeat": n, "layers": [l1, l2], "pbc_z": pz, "vacuum": stacking != 2, "natoms": len(s)})
     if F.heights(s.get_cell())[:2].min() < 2 * F.MAX_CELL + 0.5:
         return None, desc, None, "lateral height below 2*max_cell_size"
     import matid.geometry as G
@@ -68,16 +76,23 @@ def run(ctx):
     if not ok:
         broken.append(("proof", info))
     rng = np.random.default_rng(ctx.seed + 3)
-    target = ctx.n(12, 400)
+    target = ctx.n(36, 600)
     done = k = 0
     f_ok = f_fail = 0
     bad = []
+    tries = 0
     while done < target and k < target * 15:
         k += 1
-        s, desc, parts, why = gen(rng)
+        s, desc, parts, why = gen(rng, done)          # stratum = number of accepted samples so far
         if why is not None:
             ctx.count("skipped: " + why)
+            tries += 1
+            if tries > 12:                            # this stratum has no member for the drawn elements: move on
+                done += 1
+                tries = 0
+                ctx.count("stratum_without_member")
             continue
+        tries = 0
         noise = [0.0, 0.03][int(rng.integers(0, 2))]
         a = s.copy()
         if noise:
